@@ -342,8 +342,9 @@ func runC01R5R6(c *Ctx, scopeSessF *types.Var) {
 	}
 }
 
-func runC01R7(c *Ctx) {
-	rule := "R7-store-validation"
+func runC01R7(c *Ctx) { runC01R7Named(c, "R7-store-validation") }
+
+func runC01R7Named(c *Ctx, rule string) {
 	validate := c.Fn(rule, "pkg/encryption.Validate")
 	checkSig := c.Fn(rule, "pkg/encryption.checkSignature")
 	checkHmac := c.Fn(rule, "pkg/encryption.checkHmac")
